@@ -97,3 +97,61 @@ PROPS["C04"] = dict(
         _rbc_sys(3, 1, 2, shards=16, depth=3, tiers=("thorough",)), _rbc_sys(4, 1, 1, shards=16, depth=3, tiers=("thorough",)),
     ],
 )
+
+_C10_ASSUME = COMMON_ENV + [
+    "buffers handed in have cap == len (what a transport that allocates exactly produces; with spare capacity s[:8] reads stale bytes instead of panicking)",
+    "Source != SelfID (transport contract)",
+    "loggers are no-op implementations, but the ARGUMENTS of log calls are evaluated by the SSA like any other expression",
+]
+PROPS["C10"] = dict(
+    level="model_checking",
+    explanation="S1: one harness per network-facing entry point; input bytes, lengths, message type, source and session state symbolic; the assertion is the engine's built-in run-time failure check "
+                "(nil dereference, index/slice bounds, failed type assertion, nil map write, division by zero, explicit panic, deadlock) plus 'the call returns'",
+    assumptions=_C10_ASSUME,
+    outside=["inputs longer than the stated bounds", "library internals (asn1, protobuf, TLS, curve arithmetic) which are modelled", "resource exhaustion"],
+    max_replays=40,
+    runs=[
+        dict(name="Scheme.HandleMessage", dir="threshold", files=["thr_c10.go.txt"], entry="verifH_C10_handle", count=["panic:", "deadlock:", "assert:C10-"],
+             expect_covers=["reached-rbc", "reached-sync", "returned"],
+             bounds={"topic length": "{0,3,7,8,32}", "data length": "0..12", "type/source/bytes": "all", "session": "handlers registered for the topic or not; classifier result arbitrary"}),
+        dict(name="Scheme.HandleMessage -> real rbcFilter/threadSafeRBC/rbc.Receiver registered by the real prepareSigning (LoudScheme wiring)", dir="threshold", files=["thr_c10.go.txt"],
+             entry="verifH_C10_handle_rbc", args=["-realhex"], params={"hMsgs": 2, "hLenMode": 0}, shards=16, shard_depth=7, count=["panic:", "deadlock:", "assert:C10-"],
+             expect_covers=["reached-backend", "returned"],
+             bounds={"messages in a row": 2, "data length": "{0,1,3,4,11,12}", "source": "any 16-bit id but self", "bytes": "all", "classifier": "arbitrary answers, round <= 127", "N": 3},
+             tiers={"thorough": {"params": {"hMsgs": 2, "hLenMode": 1}, "bounds": {"data length": "0..12"}}}),
+    ],
+)
+
+_C06_B = {"nodes": "3 configured (self and one peer participate, third is a possible replica)", "node ids / party ids": "all 16-bit values, non-identity maps, two nodes of one party allowed",
+          "map iteration order": "every order (symbolic)"}
+PROPS["C06"] = dict(
+    level="model_checking",
+    explanation="S1 on the real computeMembership/partyIDsByUniversalIDs/initializeDKG/initializeThresholdSigning/prepareSigning and the closures they create; "
+                "S2 through the real KeyGen/runDKG with scripted synchronisers (goroutines, select, context) for the DKG forward closure; ids and map iteration order symbolic",
+    assumptions=COMMON_ENV + ["recording stubs for KeyGenerator/Signer/ReliableBroadcast/Synchronizer (the property is about what the orchestrator hands to them)",
+                              "context.WithCancel redirected to a 30-line harness context with the same cancellation semantics", "one canonical goroutine schedule for the KeyGen run (the translation closures are schedule independent)"],
+    outside=["more than three configured nodes", "sessions larger than two participants"],
+    runs=[
+        dict(dir="threshold", files=["thr_c06.go.txt"], entry="verifH_C06_dkg", args=["-maporder", "-realhex"], count=["assert:C06-", "panic:"], expect_covers=["end"], bounds=_C06_B, replay_repeat=40),
+        dict(dir="threshold", files=["thr_c06.go.txt"], entry="verifH_C06_sign", args=["-maporder", "-realhex"], count=["assert:C06-", "panic:"], expect_covers=["end"], bounds=_C06_B, replay_repeat=40),
+        dict(dir="threshold", files=["thr_c06.go.txt"], entry="verifH_C06_dup", args=["-maporder", "-realhex"], count=["assert:C06-", "panic:"], expect_covers=["accepted", "refused"],
+             bounds={"selected nodes": "2 or 3 of 3", "ids": "all 16-bit values"}),
+        dict(dir="threshold", files=["thr_c06.go.txt"], entry="verifH_C06_keygen", args=["-maporder", "-realhex", "-redirect", "context.WithCancel=verifWithCancel", "-preempt", "0", "-det"],
+             count=["assert:C06-", "panic:", "deadlock:"], expect_covers=["end", "refused"], bounds=_C06_B, replay_repeat=40, shards=8, shard_depth=5),
+    ],
+)
+
+_THR_CONC = ["-redirect", "context.WithCancel=verifWithCancel", "-realhex"]
+PROPS["C12"] = dict(
+    level="model_checking",
+    explanation="S2 on the real Scheme.Sign / KeyGen (goroutines, select, context, mutexes executed by the engine's scheduler; which runnable goroutine continues when one blocks is a symbolic choice) "
+                "with scripted synchroniser / reliable-broadcast / backend stubs whose outcome is symbolic; the handler tables are read in-package after each return and a follow-up call is made",
+    assumptions=COMMON_ENV + ["scripted Synchronizer/ReliableBroadcast/Signer/KeyGenerator stubs (outcomes: ok, first barrier fails, second barrier fails, share data unusable, backend fails)",
+                              "context.WithCancel redirected to a harness context; the caller's context expires at quiescence (when nothing else can run)",
+                              "goroutine switches at blocking points and goroutine exit (preemption bound 0 quick / 1 thorough)"],
+    outside=["more than three API calls per run", "context expiry racing with a still running callback (expiry is modelled at quiescence only)", "sessions with a real backend"],
+    runs=[
+        dict(dir="threshold", files=["thr_c12.go.txt"], entry="verifH_C12_sign", args=_THR_CONC + ["-preempt", "0"], count=["assert:C12-", "panic:", "deadlock:"], expect_covers=["end"],
+             shards=8, shard_depth=4, bounds={"calls": "Sign, then Sign on the same topic", "outcome of the first": "5 symbolic outcomes", "schedules": "all choices of the next goroutine at blocking points"}),
+    ],
+)
